@@ -182,7 +182,13 @@ EvFind(S, e) ==
         S5 == Chk(S4, ~S.shut, V("P_X06_h", "find-after-shutdown", t, "", e.t, 0, 0))
         new == {DialLaw(S, p, e.t) : p \in {q \in SeqSet(e.peers) : ~\E x \in S.exp : x.p = q /\ x.at = e.t}}
     IN  [S5 EXCEPT !.find[t] = [id |-> e.id, start |-> e.t], !.lastStart[t] = e.t, !.exp = @ \cup new,
-                   !.pubs = [m \in DOMAIN @ |-> IF m \in boot THEN [@[m] EXCEPT !.waitId = e.id] ELSE @[m]]]
+                   \* the search may be the one a waiting publish asked for; when somebody else may have asked at the same instant
+                   \* (poll, Subscribe / Relay, another publish) the publish may as well have been answered at once
+                   !.pubs = [m \in DOMAIN @ |-> IF m \in boot
+                                                   THEN [@[m] EXCEPT !.waitId = e.id,
+                                                                     !.cands = IF poll \/ S.apiAt[t] = e.t \/ Cardinality(boot) > 1
+                                                                                 THEN @ \cup {e.t + BootSleepMs} ELSE @]
+                                                   ELSE @[m]]]
 
 EvFindEnd(S, e) ==
     LET t == NsTopic(e.ns) IN
